@@ -3,73 +3,7 @@
    observation differs.  Contains no engine logic: parsing, printing, int<->N only. *)
 open Model
 
-(* ---- conversions ---------------------------------------------------------- *)
-let rec pos_of_int (i : int) : positive =
-  if i = 1 then XH
-  else if i land 1 = 0 then XO (pos_of_int (i lsr 1))
-  else XI (pos_of_int (i lsr 1))
-let n_of_int (i : int) : n = if i = 0 then N0 else Npos (pos_of_int i)
-let rec int_of_pos (p : positive) : int =
-  match p with XH -> 1 | XO q -> 2 * int_of_pos q | XI q -> 2 * int_of_pos q + 1
-let int_of_n (x : n) : int = match x with N0 -> 0 | Npos p -> int_of_pos p
-
-(* decimal strings beyond OCaml's int range (uint64 batch ids) *)
-let n_of_string (s : string) : n =
-  let ten = n_of_int 10 in
-  let r = ref N0 in
-  String.iter (fun c -> r := N.add (N.mul !r ten) (n_of_int (Char.code c - 48))) s;
-  !r
-let rec string_of_n (x : n) : string =
-  match x with
-  | N0 -> "0"
-  | _ ->
-    let ten = n_of_int 10 in
-    let q = N.div x ten and r = N.modulo x ten in
-    (match q with N0 -> "" | _ -> string_of_n q) ^ string_of_int (int_of_n r)
-
-let byte_tab : n array = Array.init 256 n_of_int
-let bytes_of_string (s : string) : n list =
-  let r = ref [] in
-  for i = String.length s - 1 downto 0 do r := byte_tab.(Char.code s.[i]) :: !r done;
-  !r
-let string_of_bytes (l : n list) : string =
-  let b = Buffer.create 64 in
-  List.iter (fun x -> Buffer.add_char b (Char.chr (int_of_n x))) l;
-  Buffer.contents b
-
-let hex_of_string (s : string) : string =
-  let b = Buffer.create (2 * String.length s) in
-  String.iter (fun c -> Buffer.add_string b (Printf.sprintf "%02x" (Char.code c))) s;
-  Buffer.contents b
-let string_of_hex (h : string) : string =
-  let n = String.length h / 2 in
-  String.init n (fun i -> Char.chr (int_of_string ("0x" ^ String.sub h (2 * i) 2)))
-
-(* "@len:seed" expansion: same LCG as harness/vh/util.go *)
-let gen_bytes (n : int) (seed : int) : string =
-  let x = ref (seed land 0x7fffffff) in
-  String.init n (fun _ ->
-    x := (!x * 1103515245 + 12345) land 0x7fffffff;
-    Char.chr ((!x lsr 16) land 0xff))
-
-let parse_tok (t : string) : string =
-  if t = "-" then ""
-  else if t.[0] = '@' then
-    (match String.split_on_char ':' (String.sub t 1 (String.length t - 1)) with
-     | [a; b] -> gen_bytes (int_of_string a) (int_of_string b)
-     | _ -> failwith ("bad token " ^ t))
-  else string_of_hex t
-let tok_bytes t = bytes_of_string (parse_tok t)
-
-let md5hex (s : string) : string = Digest.to_hex (Digest.string s)
-let obs (s : string) : string =
-  if s = "" then "-"
-  else if String.length s <= 48 then hex_of_string s
-  else "#" ^ md5hex s ^ ":" ^ string_of_int (String.length s)
-let obs_bytes l = obs (string_of_bytes l)
-
-let err_name (e : err) : string =
-  match e with EOF -> "eof" | UnexpectedEOF -> "torn" | InvalidCRC -> "crc" | ErrClosed -> "closed"
+open Util
 
 (* ---- file layer ------------------------------------------------------------ *)
 (* The model is parametric in crc (a Section variable in Chunk.v).  For speed the driver
@@ -220,7 +154,7 @@ let () =
         | "F" | "E" ->
           let t0 = Sys.time () in
           let got =
-            try (if f.(0) = "F" then file_exec f else Engine_driver.exec engine !verbose f)
+            try (if f.(0) = "F" then file_exec f else Engine_driver.exec engine !verbose f o)
             with e -> "exn " ^ Printexc.to_string e in
           let key = f.(0) ^ " " ^ (if Array.length f > 1 then f.(1) else "") in
           let (c, t) = try Hashtbl.find times key with Not_found -> (0, 0.0) in
